@@ -127,6 +127,26 @@ func registerIntrinsics(e *Engine) {
 	e.intr[vrtPath+".Symbolic"] = func(st *State, fn *ssa.Function, args []Value, ret func(Value)) {
 		ret(c.Bool(!e.Concrete))
 	}
+	// vrt.Redirect(name, fn): from now on calls of the function called name run the harness function fn
+	// instead (same signature).  Used to replace an external library's accessor methods by a harness model.
+	e.intr[vrtPath+".Redirect"] = func(st *State, fn *ssa.Function, args []Value, ret func(Value)) {
+		name, ok := st.concreteBytesN(args[0], 512)
+		iv, ok2 := args[1].(Iface)
+		if !ok || !ok2 {
+			st.unsupported("vrt.Redirect: name must be a constant (%v) and fn a function value (%T)", ok, args[1])
+		}
+		target, ok3 := iv.V.(Func)
+		if !ok3 {
+			st.unsupported("vrt.Redirect: fn is not a function value (%T)", iv.V)
+		}
+		if _, dup := e.intr[name]; !dup {
+			e.intr[name] = func(st2 *State, f2 *ssa.Function, a2 []Value, r2 func(Value)) {
+				st2.pushFrameClosure(target, a2, func(s *State, v Value) { r2(v) })
+			}
+			e.intrCache = map[*ssa.Function]Intrinsic{}
+		}
+		ret(nil)
+	}
 	e.intr[vrtPath+".Dump"] = func(st *State, fn *ssa.Function, args []Value, ret func(Value)) {
 		ret(nil)
 	}
